@@ -224,6 +224,8 @@ impl Search {
             total_legal_moves += 1;
 
             self.board.make_move(mv);
+            #[cfg(rce_verif)]
+            crate::verif::down(mv.to_notation(), u16::from(self.info.depth) + 1);
             self.info.nodes += 1;
 
             let mut score;
@@ -238,6 +240,8 @@ impl Search {
                         start,
                     )
                     .saturating_neg();
+                #[cfg(rce_verif)]
+                crate::verif::up("null", alpha, beta, depth - 1, score, self.info.depth);
                 // Principal variation search failed, the score is different then our bounds
                 if alpha < score && score < beta {
                     score = self
@@ -249,6 +253,8 @@ impl Search {
                             start,
                         )
                         .saturating_neg();
+                    #[cfg(rce_verif)]
+                    crate::verif::up("re", alpha, beta, depth - 1, score, self.info.depth);
                 }
             } else {
                 score = self
@@ -260,6 +266,8 @@ impl Search {
                         start,
                     )
                     .saturating_neg();
+                #[cfg(rce_verif)]
+                crate::verif::up("full", alpha, beta, depth - 1, score, self.info.depth);
             }
             self.info.depth -= 1;
 
@@ -398,6 +406,8 @@ impl Search {
             total_legal_moves += 1;
 
             self.board.make_move(mv);
+            #[cfg(rce_verif)]
+            crate::verif::down(mv.to_notation(), u16::from(self.info.depth) + 1);
             self.info.nodes += 1;
 
             let mut score;
@@ -413,6 +423,8 @@ impl Search {
                         start,
                     )
                     .saturating_neg();
+                #[cfg(rce_verif)]
+                crate::verif::up("null", alpha, beta, depth - 1, score, self.info.depth);
                 // Principal variation search failed, the score is different then our bounds
                 if alpha < score && score < beta {
                     score = self
@@ -424,6 +436,8 @@ impl Search {
                             start,
                         )
                         .saturating_neg();
+                    #[cfg(rce_verif)]
+                    crate::verif::up("re", alpha, beta, depth - 1, score, self.info.depth);
                 }
             } else {
                 score = self
@@ -435,6 +449,8 @@ impl Search {
                         start,
                     )
                     .saturating_neg();
+                #[cfg(rce_verif)]
+                crate::verif::up("full", alpha, beta, depth - 1, score, self.info.depth);
             }
             self.info.depth -= 1;
 
@@ -549,6 +565,8 @@ impl Search {
             }
 
             self.board.make_move(mv);
+            #[cfg(rce_verif)]
+            crate::verif::down(mv.to_notation(), u16::from(self.info.depth) + 1);
             self.info.nodes += 1;
 
             self.info.depth += 1;
@@ -561,6 +579,8 @@ impl Search {
                     start,
                 )
                 .saturating_neg();
+            #[cfg(rce_verif)]
+            crate::verif::up("q", alpha, beta, 0, score, self.info.depth);
             self.info.depth -= 1;
 
             self.board.unmake_move();
